@@ -144,12 +144,16 @@ Proof.
     unfold set_node; simpl. eauto.
 Qed.
 
-(* the temporary register of a both-remote merge *)
-Lemma inv_add_register_force s vi : inv s -> inv (set_node s vi (fst (add_register_force (nth_node s vi)))).
+(* a new EMPTY register of any capacity (the capacity is no part of the invariant): the temporary register of a both-remote
+   merge and the client's remote_add_register *)
+Definition with_empty_reg (nd : node) (mq : nat) : node :=
+  mkNode (virt nd) (sims nd) (regs nd ++ [mkReg (nextReg nd) mq 0 [] []]) (S (numRegs nd)) (S (nextReg nd)) (maxQ nd) (maxR nd).
+
+Lemma inv_add_empty_register s vi mq : inv s -> inv (set_node s vi (with_empty_reg (nth_node s vi) mq)).
 Proof.
-  intros H. unfold add_register_force. cbn [fst].
+  intros H. unfold with_empty_reg.
   set (nd := nth_node s vi). set (K := nextReg nd).
-  set (r0 := mkReg K 10 0 [] []).
+  set (r0 := mkReg K mq 0 [] []).
   set (nd' := mkNode (virt nd) (sims nd) (regs nd ++ [r0]) (S (numRegs nd)) (S K) (maxQ nd) (maxR nd)).
   pose proof (inv_nodes s H) as inv_nodes0. pose proof (inv_backed s H) as inv_backed0.
   pose proof (inv_inj s H) as inv_inj0. pose proof (inv_onto s H) as inv_onto0.
@@ -193,4 +197,125 @@ Proof.
   - intros j z Hz. rewrite SE in Hz. destruct (inv_onto0 j z Hz) as (i & p & Hp & E). exists i, p. rewrite VE. auto.
   - intros i j p p' Hp Hp'. rewrite VE in Hp, Hp'. eauto.
   - intros i p Hp. rewrite VE in Hp. unfold set_node; simpl. eauto.
+Qed.
+
+(* the temporary register of a both-remote merge *)
+Lemma inv_add_register_force s vi : inv s -> inv (set_node s vi (fst (add_register_force (nth_node s vi)))).
+Proof. apply (inv_add_empty_register s vi 10). Qed.
+
+(* remote_add_register by a client *)
+Lemma inv_newreg s n mq : inv s -> inv (fst (op_newreg s n mq)).
+Proof.
+  intros H. unfold op_newreg. destruct (Nat.leb _ _); [exact H|]. cbn [fst].
+  apply (inv_add_empty_register s n mq H).
+Qed.
+
+(* remote_new_qubit_inreg: a fresh qubit appended to an existing register *)
+Lemma inv_new_inreg s n ow k : n < length (nodes s) -> hid_inv s -> inv s -> inv (fst (op_new_inreg s n ow k)).
+Proof.
+  intros Hn HI H. unfold op_new_inreg.
+  destruct (negb _); [exact H|].
+  destruct (Nat.leb_spec (maxQ (nth_node s n)) (length (virt (nth_node s n)))); [exact H|].
+  destruct (find_reg k (regs (nth_node s n))) as [r|] eqn:EF; [|exact H].
+  destruct (Nat.leb_spec (r_max r) (r_n r)); [exact H|].
+  cbn [fst].
+  apply find_reg_some in EF as [Hr Ek].
+  set (nd := nth_node s n) in *.
+  set (HH := next_hid s).
+  set (simNum := fresh_id (map s_simNum (sims nd))).
+  set (newNum := fresh_id (map v_num (virt nd))).
+  pose proof (inv_nodes s H n) as OK. fold nd in OK.
+  set (r1 := mkReg (r_num r) (r_max r) (S (r_n r)) (add_qubit (r_n r) (r_tab r)) (r_ids r ++ [HH])).
+  set (xnew := mkSq simNum k (r_n r)).
+  set (qnew := mkVq HH newNum n simNum HH).
+  set (nd4 := mkNode (virt nd ++ [qnew]) (sims nd ++ [xnew]) (set_reg (regs nd) r1) (numRegs nd) (nextReg nd) (maxQ nd) (maxR nd)).
+  match goal with |- inv (mkNet (upd _ _ ?x) _) => change x with nd4 end.
+  assert (EN : forall j, nth_node (mkNet (upd (nodes s) n nd4) (S HH)) j = if Nat.eqb j n then nd4 else nth_node s j).
+  { intro j. rewrite nth_node_mk. destruct (Nat.ltb_spec n (length (nodes s))); try lia. rewrite andb_true_r. reflexivity. }
+  assert (FR1 : ~ In simNum (map s_simNum (sims nd))) by apply fresh_id_notin.
+  assert (FR2 : ~ In newNum (map v_num (virt nd))) by apply fresh_id_notin.
+  assert (K1 : r_num r1 = k) by exact Ek.
+  assert (LEN : length (r_ids r) = r_n r) by (apply (ok_rn nd OK r Hr)).
+  (* a simulated qubit of register k sits below r_n r *)
+  assert (POS : forall x, In x (sims nd) -> s_reg x = k -> s_pos x < r_n r).
+  { intros x Hx E. destruct (ok_sreg nd OK x Hx) as [r' [Hr' [E1 E2]]].
+    assert (r' = r) by (apply (NoDup_map_inj r_num (regs nd)); auto; [apply (ok_rnum nd OK)|congruence]). subst; auto. }
+  assert (NOK : node_ok nd4).
+  { pose proof (ok_vnum nd OK) as ok_vnum0. pose proof (ok_snum nd OK) as ok_snum0. pose proof (ok_rnum nd OK) as ok_rnum0.
+    pose proof (ok_rlt nd OK) as ok_rlt0. pose proof (ok_nregs nd OK) as ok_nregs0. pose proof (ok_rn nd OK) as ok_rn0.
+    pose proof (ok_sreg nd OK) as ok_sreg0. pose proof (ok_pos_inj nd OK) as ok_pos_inj0. pose proof (ok_count nd OK) as ok_count0.
+    constructor; unfold nd4; cbn [virt sims regs numRegs nextReg].
+    - rewrite map_app. simpl. apply NoDup_app_one; auto.
+    - rewrite map_app. simpl. apply NoDup_app_one; auto.
+    - rewrite map_rnum_set_reg; auto.
+    - intros y Hy. apply in_set_reg in Hy as [[Hy _]| ->]; auto. apply (ok_rlt0 r Hr).
+    - unfold set_reg. rewrite map_length. auto.
+    - intros y Hy. apply in_set_reg in Hy as [[Hy _]| ->]; auto. simpl. rewrite app_length; simpl. lia.
+    - intros x Hx. apply in_app_one in Hx as [Hx| ->].
+      + destruct (ok_sreg0 x Hx) as [r' [Hr' [E1 E2]]].
+        destruct (Nat.eq_dec (r_num r') (r_num r1)) as [E|NE].
+        * exists r1. split; [apply in_set_reg_new with (r := r); auto|]. split; [congruence|].
+          assert (r' = r) by (apply (NoDup_map_inj r_num (regs nd)); auto). subst. simpl. lia.
+        * exists r'. split; [apply in_set_reg_other; auto|]. auto.
+      + exists r1. split; [apply in_set_reg_new with (r := r); auto|]. simpl. split; auto.
+    - intros x y Hx Hy E1 E2. apply in_app_one in Hx as [Hx| ->]; apply in_app_one in Hy as [Hy| ->]; auto.
+      + exfalso. simpl in E1, E2. pose proof (POS x Hx E1). lia.
+      + exfalso. simpl in E1, E2. pose proof (POS y Hy (eq_sym E1)). lia.
+    - intros y Hy. rewrite filter_app_one. rewrite app_length. simpl (s_reg xnew).
+      apply in_set_reg in Hy as [[Hy NE]| ->].
+      + rewrite K1 in NE. destruct (Nat.eqb_spec k (r_num y)); [exfalso; auto|]. simpl. rewrite Nat.add_0_r. auto.
+      + rewrite K1, Nat.eqb_refl. simpl. rewrite <- Ek. rewrite (ok_count0 r Hr). lia. }
+  pose proof (inv_nodes s H) as inv_nodes0. pose proof (inv_backed s H) as inv_backed0.
+  pose proof (inv_inj s H) as inv_inj0. pose proof (inv_onto s H) as inv_onto0.
+  pose proof (inv_qid_inj s H) as inv_qid_inj0. pose proof (inv_qid_lt s H) as inv_qid_lt0.
+  constructor.
+  - intro i. rewrite EN. destruct (Nat.eqb i n); auto.
+  - intros i q Hq. rewrite EN in Hq.
+    assert (CASE : (In q (virt (nth_node s i))) \/ (i = n /\ q = qnew)).
+    { destruct (Nat.eqb_spec i n) as [->|]; auto. unfold nd4 in Hq; cbn [virt] in Hq.
+      apply in_app_one in Hq as [Hq| ->]; auto. }
+    destruct CASE as [Hq0|[-> ->]].
+    + destruct (inv_backed0 i q Hq0) as (x & r' & B1 & B2 & B3 & B4 & B5).
+      rewrite EN. destruct (Nat.eqb_spec (v_simNode q) n) as [E|E]; [|exists x, r'; repeat split; auto].
+      rewrite E in *. fold nd in B1, B3. unfold nd4; cbn [sims regs].
+      destruct (Nat.eq_dec (r_num r') (r_num r1)) as [E'|NE].
+      * assert (r' = r) by (apply (NoDup_map_inj r_num (regs nd)); auto; apply (ok_rnum nd OK)). subst r'.
+        exists x, r1. repeat split; auto; [apply in_app_one; auto|apply in_set_reg_new with (r := r); auto|].
+        simpl. rewrite nth_app_l; auto. rewrite LEN. apply POS; auto. congruence.
+      * exists x, r'. repeat split; auto; [apply in_app_one; auto|apply in_set_reg_other; auto].
+    + exists xnew, r1. rewrite EN. simpl (v_simNode qnew). rewrite Nat.eqb_refl. unfold nd4; cbn [sims regs].
+      repeat split; auto; [apply in_app_one; auto|apply in_set_reg_new with (r := r); auto|].
+      simpl. rewrite <- LEN. replace (length (r_ids r)) with (0 + length (r_ids r)) by lia. rewrite nth_app_r. reflexivity.
+  - intros i j q q' Hq Hq' E. rewrite EN in Hq, Hq'.
+    assert (CASE : forall i q, In q (virt (if Nat.eqb i n then nd4 else nth_node s i)) -> In q (virt (nth_node s i)) \/ q = qnew).
+    { intros i0 q0 Hq0. destruct (Nat.eqb_spec i0 n) as [->|]; auto. unfold nd4 in Hq0; cbn [virt] in Hq0.
+      apply in_app_one in Hq0 as [Hq0| ->]; auto. }
+    destruct (CASE _ _ Hq) as [A| ->], (CASE _ _ Hq') as [B| ->]; eauto.
+    + exfalso. destruct (inv_backed0 i q A) as (x & r' & B1 & B2 & _).
+      unfold vref in E. simpl in E. injection E as E1 E2. rewrite E1 in B1. fold nd in B1.
+      apply FR1. rewrite <- E2, <- B2. apply in_map; auto.
+    + exfalso. destruct (inv_backed0 j q' B) as (x & r' & B1 & B2 & _).
+      unfold vref in E. simpl in E. injection E as E1 E2. rewrite <- E1 in B1. fold nd in B1.
+      apply FR1. rewrite E2, <- B2. apply in_map; auto.
+  - intros j x Hx. rewrite EN in Hx.
+    assert (CASE : In x (sims (nth_node s j)) \/ (j = n /\ x = xnew)).
+    { destruct (Nat.eqb_spec j n) as [->|]; auto. unfold nd4 in Hx; cbn [sims] in Hx.
+      apply in_app_one in Hx as [Hx| ->]; auto. }
+    destruct CASE as [Hx0|[-> ->]].
+    + destruct (inv_onto0 j x Hx0) as (i & q & Hq & E). exists i, q. rewrite EN. split; auto.
+      destruct (Nat.eqb_spec i n) as [->|]; auto. unfold nd4; cbn [virt]. apply in_app_one; auto.
+    + exists n, qnew. rewrite EN, Nat.eqb_refl. unfold nd4; cbn [virt]. split; [apply in_app_one; auto|reflexivity].
+  - intros i j q q' Hq Hq' E. rewrite EN in Hq, Hq'.
+    assert (CASE : forall i q, In q (virt (if Nat.eqb i n then nd4 else nth_node s i)) -> (exists i', In q (virt (nth_node s i'))) \/ q = qnew).
+    { intros i0 q0 Hq0. destruct (Nat.eqb_spec i0 n) as [->|]; eauto. unfold nd4 in Hq0; cbn [virt] in Hq0.
+      apply in_app_one in Hq0 as [Hq0| ->]; eauto. }
+    destruct (CASE _ _ Hq) as [[a A]| ->], (CASE _ _ Hq') as [[b B]| ->]; eauto.
+    + exfalso. specialize (inv_qid_lt0 _ _ A). simpl in E. unfold HH in E. lia.
+    + exfalso. specialize (inv_qid_lt0 _ _ B). simpl in E. unfold HH in E. lia.
+  - intros i q Hq. rewrite EN in Hq. simpl.
+    destruct (Nat.eqb_spec i n) as [->|].
+    + unfold nd4 in Hq; cbn [virt] in Hq. apply in_app_one in Hq as [Hq| ->].
+      * specialize (inv_qid_lt0 _ _ Hq). unfold HH. lia.
+      * simpl. unfold HH. lia.
+    + specialize (inv_qid_lt0 _ _ Hq). unfold HH. lia.
 Qed.
